@@ -164,6 +164,8 @@ func init() {
 		},
 		"verifGuardOn":       func(fr *frame, args []value) value { fr.m.guardOn = true; return nil },
 		"verifGuardOff":      func(fr *frame, args []value) value { fr.m.guardOn = false; return nil },
+		"verifIsolationOn":   func(fr *frame, args []value) value { fr.m.isoOn = true; fr.m.iso = nil; return nil },
+		"verifIsolationOff":  func(fr *frame, args []value) value { fr.m.isoOn = false; return nil },
 		"verifRaceStress":    noop,
 		"verifDailyLog":      inDailyLog,
 		"verifWatchDailyLog": noop,
